@@ -100,9 +100,11 @@ class LoopSummary:
                 bc = tb.branch_cond(b)
                 if bc is not None:
                     c, tt, ft = bc
-                    if tt not in body and ft in body:
+                    live = cfg._can_reach_exit()
+                    # an edge that leaves the loop only to panic is a refusal, not a loop exit
+                    if tt not in body and ft in body and tt in live:
                         conds.append((c, False))   # stays in the loop while cond is false
-                    elif ft not in body and tt in body:
+                    elif ft not in body and tt in body and ft in live:
                         conds.append((c, True))
             carried = []
             latches = [p for p in cfg.pred[h] if p in body]
@@ -188,7 +190,12 @@ def render(ls):
 
 
 def apply_roles(t, roles):
-    """roles: dict term -> role name; bottom-up replacement"""
+    """roles: dict term -> role name; larger patterns are replaced first (each in its own bottom-up pass)"""
+    pats = sorted(roles.items(), key=lambda kv: -len(repr(kv[0])))
+    big = [kv for kv in pats if len(repr(kv[0])) > 40]
+    for pat, name in big:
+        t = T.map_term(t, lambda x, pat=pat, name=name: ("role", name) if x == pat else x)
+
     def f(x):
         r = roles.get(x)
         if r is not None:
